@@ -21,8 +21,9 @@ protocol (one line in, at most one line out):
   X ((name base…)…)      superclass dict of abc_hierarchy   (no output)
   O hasDeps lossy useAbcs maxUnion removeMutable canDoLookup   (no output)
   U unit                 → optimised unit | unsupported | bad-input
-  G unit                 → "k s": k = every type position is well-kinded (`kok`), s = the guard of
-                           SimplifyUnionsWithSuperclasses holds where that visitor runs (`suwsOK`)
+  G unit                 → "k s f": k = every type position is well-kinded (`kok`), s = the guard of
+                           SimplifyUnionsWithSuperclasses holds where that visitor runs (`suwsOK`),
+                           f = CombineContainers' fuel was enough (`ccStable` at every type position)
   J (type…)              → JoinTypes
   Q type type            → 1/0   Python `==`
 -/
@@ -280,7 +281,8 @@ def stepC11 (st : St) (line : String) : St × Option String :=
       let k := u.all kok
       let H := pipelineHier st.opts st.deps st.abcs u
       let s := !st.opts.hasDeps || (stageA u).all (suwsOK H)
-      (st, some ((if k then "1" else "0") ++ " " ++ (if s then "1" else "0")))
+      let f := (beforeCC u).all ccStable
+      (st, some ((if k then "1" else "0") ++ " " ++ (if s then "1" else "0") ++ " " ++ (if f then "1" else "0")))
     | none => (st, some "bad-input")
   else if line.startsWith "J " then
     match SExp.parse (rest line) with
